@@ -657,3 +657,116 @@ Proof.
   intros m max script pl r t fin Hm H. destruct (passthrough_run_facts _ _ _ _ _ _ _ Hm H) as [F O].
   destruct F. rewrite O in *. repeat split; assumption.
 Qed.
+
+(* ---- linking the client state to the server script ---- *)
+
+Record Link (script : list sscript) (s : st) : Prop := mkLink {
+  l_rest : rest s = skipn (nxt s) script;
+  l_nxt : 1 <= nxt s;
+  l_idx : c_idx (cur s) = nxt s - 1;
+  l_end : c_end (cur s) = s_end (nth_script script (nxt s - 1));
+  l_total : c_total (cur s) = s_msgs (nth_script script (nxt s - 1)) }.
+
+Lemma pop_skipn : forall k (l : list sscript),
+  pop (skipn k l) = (nth k l (mkS 0 EErr), skipn (S k) l).
+Proof.
+  induction k as [|k IH]; intros l.
+  - destruct l; reflexivity.
+  - destruct l as [|x l]; [reflexivity|]. cbn [skipn nth]. apply IH.
+Qed.
+
+Lemma link_open : forall script s eo s1, Link script s -> open_stream s = (eo, s1) -> Link script s1.
+Proof.
+  intros script s eo s1 [R N I E T] H. unfold open_stream in H. rewrite R, pop_skipn in H.
+  inversion H; subst; clear H. constructor; cbn [rest nxt cur c_idx c_end c_total s_msgs s_end];
+    try (replace (S (nxt s) - 1) with (nxt s) by lia); unfold nth_script; try reflexivity; try lia.
+Qed.
+
+Lemma link_raw : forall script pl s ev r s', Link script s -> raw_recv pl s = (ev, r, s') -> Link script s'.
+Proof.
+  intros script pl s ev r s' L H. unfold raw_recv in H.
+  destruct (cancelled s); [inversion H; subst; exact L|].
+  destruct (c_next (cur s) <? c_total (cur s)).
+  - inversion H; subst; clear H. destruct L. constructor; cbn [rest nxt cur c_idx c_end c_total]; assumption.
+  - destruct (c_end (cur s)); try (inversion H; subst; exact L).
+    destruct (p_on_hang pl); inversion H; subst; clear H; [|exact L].
+    destruct L. constructor; cbn [rest nxt cur]; assumption.
+Qed.
+
+Lemma link_retry : forall script pl left s ev r s', Link script s -> retry_loop pl left s = (ev, r, s') -> Link script s'.
+Proof.
+  intros script pl left. induction left as [|left IH]; intros s ev r s' L H; rewrite retry_loop_eq in H;
+    (destruct (cancelled s); [inversion H; subst; exact L|]);
+    destruct (open_stream s) as [eo s1] eqn:Eo; pose proof (link_open _ _ _ _ L Eo) as L1;
+    destruct (raw_recv pl s1) as [[ev1 r1] s2] eqn:Er; pose proof (link_raw _ _ _ _ _ _ L1 Er) as L2;
+    (destruct r1 as [i j|e]; [inversion H; subst; exact L2|]);
+    (destruct (is_timeout e); [inversion H; subst; exact L2|]);
+    (destruct (cancelled s2); [inversion H; subst; exact L2|]).
+  - inversion H; subst; exact L2.
+  - destruct (opt_nat_eqb (p_backoff_after pl) (c_idx (cur s2))).
+    + inversion H; subst; clear H. destruct L2. constructor; cbn [set_cancelled rest nxt cur]; assumption.
+    + destruct (retry_loop pl left s2) as [[ev' r'] s3] eqn:Erl. inversion H; subst. eapply IH; eauto.
+Qed.
+
+Lemma link_recv_msg : forall script pl max s ev r s', Link script s -> recv_msg pl max s = (ev, r, s') -> Link script s'.
+Proof.
+  intros script pl max s ev r s' L H. rewrite recv_msg_eq in H.
+  destruct (raw_recv pl s) as [[ev1 r1] s1] eqn:Er. pose proof (link_raw _ _ _ _ _ _ L Er) as L1.
+  destruct r1 as [i j|e]; [inversion H; subst; exact L1|].
+  destruct (final_eqb e FCtxCanceled || is_timeout e); [inversion H; subst; exact L1|].
+  destruct (retry_loop pl max s1) as [[ev' r'] s2] eqn:Erl. inversion H; subst. eapply link_retry; eauto.
+Qed.
+
+Lemma link_caller : forall script recv,
+  (forall s ev r s', Link script s -> recv s = (ev, r, s') -> Link script s') ->
+  forall fuel s ev fin s', Link script s -> caller recv fuel s = (ev, fin, s') -> Link script s'.
+Proof.
+  intros script recv Hr. induction fuel as [|fuel IH]; intros s ev fin s' L H; cbn [caller] in H.
+  - inversion H; subst; exact L.
+  - destruct (recv s) as [[ev1 r1] s1] eqn:Er. pose proof (Hr _ _ _ _ L Er) as L1.
+    destruct r1 as [i j|e]; [|inversion H; subst; exact L1].
+    destruct (caller recv fuel s1) as [[ev' f'] s2] eqn:Ec. inversion H; subst. eapply IH; eauto.
+Qed.
+
+Lemma link_init : forall script r ev0 s0, init script r = (ev0, s0) -> Link script s0.
+Proof.
+  intros script r ev0 s0 H. unfold init in H. destruct (pop script) as [sc t] eqn:Ep.
+  inversion H; subst; clear H.
+  pose proof (pop_skipn 0 script) as P. cbn [skipn] in P. rewrite Ep in P. inversion P; subst.
+  constructor; cbn [rest nxt cur c_idx c_end c_total s_msgs s_end Nat.sub]; try reflexivity; lia.
+Qed.
+
+(* exhausted budget, whole run: a watch stream that ends with anything but
+   context.Canceled, and is not blocked for ever, ends with the error of the LAST
+   stream that reached the server (script entry opens-1: status error or io.EOF),
+   its last RecvMsg having made all Max+1 attempts without receiving anything *)
+Theorem retry_run_exhausted : forall m max script pl r t fin,
+  need_retry m = true -> run_stream m max script pl r = (t, fin) ->
+  fin <> FCtxCanceled -> fin <> FTimeout ->
+  fin = err_of (s_end (nth_script script (opens t - 1))) /\ (fin = FBreak \/ fin = FEOF) /\
+  exists tp tl, t = tp ++ tl /\ opens tl = S max /\ deliveries tl = [].
+Proof.
+  intros m max script pl r t fin Hm H Hnc Hnt.
+  destruct (split_run_stream _ _ _ _ _ _ _ H) as (ev0 & s0 & ev & s' & Hi & Hc & Ht). subst t.
+  rewrite Hm in Hc.
+  destruct (init_spec _ _ _ _ Hi) as (E0 & P0 & N0 & R0 & S0 & C0).
+  assert (I0 : Inv s0) by (intro Hx; congruence).
+  assert (Hlen : length (pending s0) < S (total_msgs script)) by (rewrite P0, length_all_from; lia).
+  destruct (caller_spec _ _ (recv_msg_good pl max) _ _ _ _ _ Hc I0 Hlen)
+    as (F & I' & Dr & Nf & Nn & sl & evp & evl & Hev & Hl & Isl & Hcp & Hdl).
+  pose proof (link_caller script _ (link_recv_msg script pl max) _ _ _ _ _ (link_init _ _ _ _ Hi) Hc) as L.
+  destruct (recv_msg_spec _ _ _ _ _ _ Hl Isl) as (_ & _ & _ & El).
+  destruct (El fin eq_refl) as [Ec En].
+  assert (Hcs : cancelled s' = false).
+  { destruct (cancelled s') eqn:E; [exfalso; apply Hnc; apply Ec; reflexivity|reflexivity]. }
+  destruct (En Hcs) as (A1 & A2 & A3 & A4).
+  destruct F as (_ & N & _).
+  assert (Hop : opens (ev0 ++ ev) = nxt s').
+  { subst ev0. rewrite opens_app. rewrite N, N0. reflexivity. }
+  destruct L as [_ _ _ Le _].
+  split; [rewrite Hop, <- Le; exact A1|].
+  split.
+  { rewrite A1 in *. destruct (c_end (cur s')); simpl in *; auto. congruence. }
+  exists (ev0 ++ evp), evl. split; [rewrite Hev, app_assoc; reflexivity|].
+  split; [apply A4; exact Hnt|exact Hdl].
+Qed.
